@@ -74,6 +74,7 @@ func checkBalancedCounters(p *Prog, l *Ledger, rule string) {
 	}
 	byLoc := map[string][]site{}
 	desc := map[string]string{}
+	persistent := persistentStructs(p)
 	for _, fn := range p.ModuleFuncs() {
 		if strings.Contains(fn.Synthetic, "package initializer") {
 			continue
@@ -84,6 +85,9 @@ func checkBalancedCounters(p *Prog, l *Ledger, rule string) {
 		instrsOf(fn, func(in ssa.Instruction) {
 			if st, ok := in.(*ssa.Store); ok {
 				if loc, d, ok := counterDelta(st); ok {
+					if strings.HasPrefix(loc.key, "field:") && !persistent[strings.TrimPrefix(loc.key[:strings.LastIndex(loc.key, ".")], "field:")] {
+						return // a position inside a short-lived helper object (an argument cursor), not interpreter state
+					}
 					byLoc[loc.key] = append(byLoc[loc.key], site{fn, st, d})
 					desc[loc.key] = loc.desc
 				}
@@ -217,4 +221,79 @@ func deferDeltaOf(d *ssa.Defer, k string) int64 {
 		}
 	})
 	return total
+}
+
+// persistentStructs: the struct types of the module whose values outlive one built-in call or one evaluation step —
+// everything reachable through field, element and pointer types from the package-level variables, from the types that
+// implement Callable, and from Interpreter, Environment, ControlFlowSignal and the AST node types; plus any struct a
+// value of which is stored into an interface, a map, a slice or a field (it may then be kept).  A struct that is only
+// ever a local of the function that makes it (an iterator over the arguments) is not in the set.
+func persistentStructs(p *Prog) map[string]bool {
+	out := map[string]bool{}
+	var visit func(t types.Type, depth int)
+	visit = func(t types.Type, depth int) {
+		if depth > 8 || t == nil {
+			return
+		}
+		switch u := t.(type) {
+		case *types.Named:
+			if _, isStruct := u.Underlying().(*types.Struct); isStruct {
+				k := typeStr(u)
+				if out[k] {
+					return
+				}
+				out[k] = true
+			}
+			visit(u.Underlying(), depth+1)
+		case *types.Pointer:
+			visit(u.Elem(), depth+1)
+		case *types.Slice:
+			visit(u.Elem(), depth+1)
+		case *types.Array:
+			visit(u.Elem(), depth+1)
+		case *types.Map:
+			visit(u.Key(), depth+1)
+			visit(u.Elem(), depth+1)
+		case *types.Struct:
+			for i := 0; i < u.NumFields(); i++ {
+				visit(u.Field(i).Type(), depth+1)
+			}
+		}
+	}
+	for _, pk := range p.SSA.AllPackages() {
+		if !p.InModulePkg(pk) {
+			continue
+		}
+		for _, mem := range pk.Members {
+			switch m := mem.(type) {
+			case *ssa.Global:
+				visit(derefT(m.Type()), 0)
+			case *ssa.Type:
+				name := m.Object().Name()
+				if pk.Pkg.Name() == "ast" || name == "Interpreter" || name == "Environment" || name == "ControlFlowSignal" || name == "Function" {
+					visit(m.Type(), 0)
+				}
+				if ci := p.callableIface(); ci != nil && (types.Implements(m.Type(), ci) || types.Implements(types.NewPointer(m.Type()), ci)) {
+					visit(m.Type(), 0)
+				}
+			}
+		}
+	}
+	// stored somewhere that can keep it
+	for _, fn := range p.ModuleFuncs() {
+		instrsOf(fn, func(in ssa.Instruction) {
+			switch x := in.(type) {
+			case *ssa.MakeInterface:
+				visit(x.X.Type(), 0)
+			case *ssa.MapUpdate:
+				visit(x.Value.Type(), 0)
+			case *ssa.Store:
+				switch x.Addr.(type) {
+				case *ssa.FieldAddr, *ssa.IndexAddr, *ssa.Global:
+					visit(x.Val.Type(), 0)
+				}
+			}
+		})
+	}
+	return out
 }
